@@ -17,8 +17,12 @@
 (*   req    : sequence of requested names ("afile" = a file named unlike the   *)
 (*            module AA-MIB it holds)                                          *)
 (*   srcA/B : "ok" | "broken" | "missing"   file <module>.txt in the source dir *)
+(*   src2A  : "ok" | "broken" | "missing"   AA-MIB.txt in the SECOND source dir  *)
 (*   alias  : BOOLEAN                       file afile.txt (module AA-MIB) exists *)
 (*   imp    : "none" | "AB" | "BA" | "both" who imports whom                   *)
+(*   spell  : "exact" | "variant"  IMPORTS name the other module exactly, or by *)
+(*            a case variant (Bb-Mib for BB-MIB) that the directory reader still *)
+(*            resolves to the file BB-MIB.txt                                   *)
 (*   dstA/B : "absent" | "fresh" | "stale"  file in the destination beforehand *)
 (*   borA/B : BOOLEAN                       file in the borrower directory     *)
 (*   base   : BOOLEAN                       SNMPv2-SMI/-TC/-CONF in the source  *)
@@ -40,7 +44,8 @@ BaseSeq  == <<"SNMPv2-CONF", "SNMPv2-SMI", "SNMPv2-TC">>
 BaseSet  == {"SNMPv2-CONF", "SNMPv2-SMI", "SNMPv2-TC"}
 UserMods == {"AA-MIB", "BB-MIB"}
 AllMods  == UserMods \cup BaseSet
-AllNames == AllMods \cup {"afile"}
+Variant(m) == CASE m = "AA-MIB" -> "Aa-Mib" [] m = "BB-MIB" -> "Bb-Mib" [] OTHER -> m
+AllNames == AllMods \cup {"afile", "Aa-Mib", "Bb-Mib"}
 
 B2S(b) == IF b THEN "T" ELSE "F"
 Mod(n, i, s) == [name |-> n, imp |-> i, sem |-> s]
@@ -48,8 +53,8 @@ Ok(ms) == [r |-> "ok", mods |-> ms]
 
 \* imports as symtable.genImports returns them: sorted, constant imports merged in
 ImpOf(wd, m) ==
-  CASE m = "AA-MIB" /\ wd.imp \in {"AB", "both"} -> <<"BB-MIB">> \o BaseSeq
-    [] m = "BB-MIB" /\ wd.imp \in {"BA", "both"} -> <<"AA-MIB">> \o BaseSeq
+  CASE m = "AA-MIB" /\ wd.imp \in {"AB", "both"} -> <<IF wd.spell = "variant" THEN "Bb-Mib" ELSE "BB-MIB">> \o BaseSeq
+    [] m = "BB-MIB" /\ wd.imp \in {"BA", "both"} -> <<IF wd.spell = "variant" THEN "Aa-Mib" ELSE "AA-MIB">> \o BaseSeq
     [] OTHER -> BaseSeq
 
 OptVal(wd, o) ==
@@ -61,9 +66,11 @@ FileAns(st, m, wd) ==
     [] st = "broken" -> A("parseerr")
     [] OTHER -> A("nf")
 
-SrcAnsOf(wd, n) ==
-  CASE n = "AA-MIB" -> FileAns(wd.srcA, "AA-MIB", wd)
-    [] n = "BB-MIB" -> FileAns(wd.srcB, "BB-MIB", wd)
+\* the second source directory only ever holds a copy of AA-MIB
+SrcAnsOf(wd, k, n) ==
+  IF k > 1 THEN (IF n \in {"AA-MIB", "Aa-Mib"} THEN FileAns(wd.src2A, "AA-MIB", wd) ELSE A("nf")) ELSE
+  CASE n \in {"AA-MIB", "Aa-Mib"} -> FileAns(wd.srcA, "AA-MIB", wd)      \* upper-case matching finds AA-MIB.txt
+    [] n \in {"BB-MIB", "Bb-Mib"} -> FileAns(wd.srcB, "BB-MIB", wd)
     [] n = "afile"  -> IF wd.alias THEN Ok(<<Mod("AA-MIB", ImpOf(wd, "AA-MIB"), "ok")>>) ELSE A("nf")
     [] OTHER        -> IF wd.base THEN Ok(<<Mod(n, BaseSeq, "ok")>>) ELSE A("nf")
 
@@ -80,7 +87,7 @@ SeaAnsOf(wd, k, m) ==
   ELSE "absent"
 
 Keys == {OptKey(o) : o \in OptNames} \cup {<<"bflav", 1, "-">>}
-        \cup {<<"src", 1, n>> : n \in AllNames}
+        \cup {<<"src", k, n>> : k \in 1..NSrc, n \in AllNames}
         \cup {<<p, k, m>> : p \in {"sea", "bsea"}, k \in 1..NSea, m \in AllMods}
         \cup {<<"bor", 1, m>> : m \in AllMods} \cup {<<"put", 0, m>> : m \in AllMods}
 
@@ -88,7 +95,7 @@ EnvOf(wd) ==
   [k \in Keys |->
      CASE k[1] = "opt"   -> A(B2S(OptVal(wd, k[3])))
        [] k[1] = "bflav" -> A(B2S(wd.texts = "before"))
-       [] k[1] = "src"   -> SrcAnsOf(wd, k[3])
+       [] k[1] = "src"   -> SrcAnsOf(wd, k[2], k[3])
        [] k[1] \in {"sea", "bsea"} -> A(SeaAnsOf(wd, k[2], k[3]))
        [] k[1] = "bor"   -> A(IF BorOf(wd, k[3]) THEN "ok" ELSE "nf")
        [] OTHER          -> A("ok")]
@@ -117,7 +124,7 @@ DInitW(wd) ==
   /\ dpc = "args" /\ exitc = 255 /\ reported = FALSE /\ report = NoReport /\ idxw = FALSE
 
 DInit ==
-  \E wd \in [usage : Dom.usage, req : Dom.req, srcA : Dom.srcA, srcB : Dom.srcB, alias : Dom.alias, imp : Dom.imp,
+  \E wd \in [usage : Dom.usage, req : Dom.req, srcA : Dom.srcA, src2A : Dom.src2A, srcB : Dom.srcB, alias : Dom.alias, imp : Dom.imp, spell : Dom.spell,
              dstA : Dom.dstA, dstB : Dom.dstB, borA : Dom.borA, borB : Dom.borB, base : Dom.base,
              noDeps : Dom.noDeps, rebuild : Dom.rebuild, ignoreErrors : Dom.ignoreErrors, noWrites : Dom.noWrites,
              dryRun : Dom.dryRun, texts : Dom.texts, buildIndex : Dom.buildIndex, quiet : Dom.quiet] :
